@@ -256,8 +256,17 @@ pub fn run_case(ctx: &mut Ctx, fam: &str, k: u64, r: &mut Rng) {
             let pick = |r: &mut Rng| -> usize { if r.chance(1, 10) { *r.pick(&[31, 33, 63, 64, 65]) } else { r.range(5, 20) } };
             let (m, kk, n) = (pick(r), pick(r), pick(r));
             let lead: Vec<usize> = match r.below(4) { 0 => vec![], 1 => vec![r.range(2, 3)], 2 => vec![1, 2], _ => vec![2, 1] };
-            let la = if r.chance(1, 3) { vec![] } else { lead.clone() };
-            let lb = if r.chance(1, 3) { vec![] } else if r.chance(1, 3) { lead.iter().map(|_| 1).collect() } else { lead.clone() };
+            let mut la = if r.chance(1, 3) { vec![] } else { lead.clone() };
+            let mut lb = if r.chance(1, 3) { vec![] } else if r.chance(1, 3) { lead.iter().map(|_| 1).collect() } else { lead.clone() };
+            if r.chance(1, 5) {
+                // ranks differ and both sides are batched: [l1, l2, ..] x [l2, ..] and the mirror image
+                let (l1, l2) = (r.range(2, 3), r.range(2, 3));
+                la = vec![l1, l2];
+                lb = vec![l2];
+                if r.chance(1, 2) {
+                    std::mem::swap(&mut la, &mut lb);
+                }
+            }
             let mut c = mk(&la, &lb, m, kk, n, r.chance(1, 2), r.chance(1, 2), r.below(5), "large");
             c.cell = format!("large|{}", c.cell);
             run_mm(ctx, &c, r, false)
